@@ -78,8 +78,8 @@ def mk_translate(k, ispriv, iswrite, texcb_sym=False, arch=7, regions=None, mode
     return fn
 
 
-INSTR_QUICK = ['LdrImmediateThumbT1', 'StrImmediateThumbT1', 'LdrbImmediateArmA1', 'StrbImmediateArmA1']
-INSTR_MORE = ['LdrdImmediateA1', 'StrdImmediateA1', 'LdrhImmediateT1', 'StrhImmediateT1', 'LdrRegisterT1', 'LdrexA1',
+INSTR_QUICK = ['StrImmediateThumbT1', 'LdrbImmediateArmA1', 'StrbImmediateArmA1']
+INSTR_MORE = ['LdrImmediateThumbT1', 'LdrdImmediateA1', 'StrdImmediateA1', 'LdrhImmediateT1', 'StrhImmediateT1', 'LdrRegisterT1', 'LdrexA1',
               'StrexA1']
 
 
